@@ -47,9 +47,27 @@ def _h3(m, rep, tier, hdrs):
     wd = os.path.join(m.work, 'c18')
     os.makedirs(wd, exist_ok=True)
     jobs = []
+    # every witness also *uses* each header it includes (names one function the header declares when it is included
+    # alone): a header that is silently skipped in some combination -- an include guard shared with another header --
+    # leaves that name undeclared
+    own = {}
+    for h in hdrs:
+        try:
+            own[h] = astfacts.own_functions(m, h)
+        except _model.ModelError:
+            own[h] = []          # the header does not parse alone: its `alone:` witness reports that
+    rep.extra['headers_with_functions'] = len([h for h in hdrs if own[h]])
     for cc in ccs:
         for i, (label, hs) in enumerate(cfgs):
             text = ''.join('#include "cstl/%s"\n' % os.path.basename(h) for h in hs) + 'int cstl_verif_client_%d;\n' % i
+            uses = []
+            for h in hs:
+                if own[h] and own[h][0] not in uses:
+                    uses.append(own[h][0])
+            if uses:
+                text += 'typedef void cstl_verif_fn(void);\nstatic cstl_verif_fn * const cstl_verif_use_%d[] = { %s };\n' % (
+                    i, ', '.join('(cstl_verif_fn *)%s' % u for u in uses))
+                text += 'cstl_verif_fn * cstl_verif_get_%d(int k) { return cstl_verif_use_%d[k]; }\n' % (i, i)
             jobs.append((cc, label, text, os.path.join(wd, '%s_%d.c' % (cc, i))))
     with ThreadPoolExecutor(max_workers=16) as ex:
         res = list(ex.map(lambda j: _cc_syntax(j[0], flags, j[2], j[3]), jobs))
